@@ -124,7 +124,7 @@ def run_proc(args):
         lines.append('sockbase ' + base)
         sockpath = (w + '/' + base).encode()
         assert pr['sockbase'] == 'short' or len(sockpath) == pr['sockbase']
-    lines += ['sinks %s %s' % pr['sinks'], 'setenv %s %s' % (H.hx(b'IDV'), H.hx(b'VAL')), 'setenv %s %s' % (H.hx(b'IDL120'), H.hx(b'e' * 120)), 'setenv %s %s' % (H.hx(b'IDL250'), H.hx(b'f' * 250))]
+    lines += ['sinks %s %s' % pr['sinks'], 'errno -1', 'setenv %s %s' % (H.hx(b'IDV'), H.hx(b'VAL')), 'setenv %s %s' % (H.hx(b'IDL120'), H.hx(b'e' * 120)), 'setenv %s %s' % (H.hx(b'IDL250'), H.hx(b'f' * 250))]
     for c in pr['cases']:
         cfg = c['cfg']
         if cfg is None:
